@@ -1,3 +1,4 @@
+import Hannibal.Props.C16QCurrent
 import Hannibal.Props.C16Current
 #print axioms Hannibal.C16_kept
 #print axioms Hannibal.C16_released
@@ -6,3 +7,6 @@ import Hannibal.Props.C16Current
 #print axioms Hannibal.C16_broadcast
 #print axioms Hannibal.C16_lifetime_current
 #print axioms Hannibal.C16_broadcast_current
+#print axioms Hannibal.C16q_holds
+#print axioms Hannibal.C16q_current
+#print axioms Hannibal.monC16q_lenient
